@@ -358,7 +358,8 @@ impl<'a> Ix<'a> {
     /// earlier operations on the actor could still occupy a slot (so nobody is parked and a slot is free: the send completes in
     /// its first poll), the actor has finished on_start or not (the mailbox is open from spawn) and has not begun to stop.
     pub fn certainly_accepted(&self, o: &OpInfo) -> bool {
-        if !self.sim() || !o.kind.is_msg() {
+        if !self.sim() || !o.kind.is_msg() || o.panicked.is_some() {
+            // a call that panicked in its caller (deadlock report) never reached the mailbox
             return false;
         }
         let x = &self.actors[o.actor];
